@@ -155,3 +155,9 @@ impl Strap {
         self.idx_front -= idx_sub;
     }
 }
+
+// Verification hook (inert unless built with `--cfg nrel_altrios_verif` or under `cargo kani`).
+#[cfg(any(kani, nrel_altrios_verif))]
+mod verif_hook {
+    include!(concat!(env!("NREL_ALTRIOS_VERIF_DIR"), "/hooks/train__resistance__kind__path_res.rs"));
+}
